@@ -338,7 +338,8 @@ func (c *Collection) PullID(ctx context.Context, id string, opts ...ReadOption) 
 			select {
 			case <-ctx.Done():
 				return
-			case send <- &ValueChange{ChangeTime: change.ChangeTime, Value: change.NewValue, SeedValue: change.SeedValue, LastSeedValue: change.LastSeedValue}:
+			// the item has one seed value, which is the last one for this subscription wherever it sorts in the collection
+			case send <- &ValueChange{ChangeTime: change.ChangeTime, Value: change.NewValue, SeedValue: change.SeedValue, LastSeedValue: change.SeedValue}:
 			}
 		}
 	}()
